@@ -414,10 +414,45 @@ example :
      | .ok (h', r) => (h'.map (·.dimNames), r)
      | .error _ => ([], 0)) = ([["d0"], ["d0"], ["t", "d0"], ["t", "d0"], ["t", "d0"]], 4) := by decide
 
+namespace Aux
+
+theorem combineH_keeps {h h' : Heap} {m : String} {kw : List (String × Fluent.Static)} {a r b : Nat} {d : String} {keep : Bool}
+    (e : combineH h m kw a d b keep = .ok (h', r)) : Keeps h h' := by
+  unfold combineH at e
+  split at e
+  · cases e
+  · split at e
+    · split at e
+      · injection e with e; injection e with e1 e2; subst e1; exact keeps_refl h
+      · split at e
+        · rename_i h2 hs
+          injection e with e; injection e with e1 e2; subst e1
+          exact (squeezeAt_keeps (keeps_append [h.cell a] (keeps_refl h)) (Nat.le_refl _) hs).1
+        · cases e
+    · split at e
+      · injection e with e; injection e with e1 e2; subst e1; exact keeps_append _ (keeps_refl h)
+      · cases e
+
+theorem selectH_keeps {h h' : Heap} {a r : Nat} {crit : Option (String × Fluent.Sel Fluent.Coord)} {drop : Bool}
+    (e : selectH h a crit drop = .ok (h', r)) : Keeps h h' := by
+  unfold selectH at e
+  split at e
+  · injection e with e; injection e with e1 e2; subst e1; exact keeps_refl h
+  · split at e
+    · split at e
+      · injection e with e; injection e with e1 e2; subst e1; exact keeps_refl h
+      · cases e
+    · split at e
+      · injection e with e; injection e with e1 e2; subst e1; exact keeps_append _ (keeps_refl h)
+      · cases e
+
+end Aux
+
 open Aux in
 /-- **…as an invariant over every history**: for every program — any sequence of joins, broadcasts,
-arithmetic between actions, stack/concatenate, reduce, select and transforms with any `func` — and every
-initial heap, every action object that existed at some point still holds the same node array at the end. -/
+arithmetic between actions, reduce, select (also when it hands back the action itself), stack/concatenate (also on
+a dimension of size 1, where the operand is squeezed on a copy or handed back) and transforms with any `func` —
+and every initial heap, every action object that existed at some point still holds the same node array at the end. -/
 theorem c14_history_intact {P : Type} (ops : List (HOp P)) (h : Heap) :
     h.length ≤ (hrun .always h ops).length ∧ ∀ k, k < h.length → (hrun .always h ops)[k]? = h[k]? := by
   induction ops generalizing h with
@@ -425,15 +460,80 @@ theorem c14_history_intact {P : Type} (ops : List (HOp P)) (h : Heap) :
   | cons o os ih =>
     have k1 : Keeps h (hstep .always h o) := by
       cases o with
-      | op o => exact ⟨(c14_operands_intact h o).2.1, (c14_operands_intact h o).1⟩
+      | op o =>
+        simp only [hstep, hstepR]
+        split
+        · exact keeps_append _ (keeps_refl h)
+        · exact keeps_refl h
       | transform a f ps dim axis =>
-        simp only [hstep]
+        simp only [hstep, hstepR]
         split
         · rename_i h' r e
           have := c14_transform_intact h a f ps dim axis h' r e
-          exact ⟨by omega, this.1⟩
+          exact ⟨by show h.length ≤ h'.length; omega, this.1⟩
+        · exact keeps_refl h
+      | combine m kw a d b keep =>
+        simp only [hstep, hstepR]
+        split
+        · rename_i h' r e; exact combineH_keeps e
+        · exact keeps_refl h
+      | select a crit drop =>
+        simp only [hstep, hstepR]
+        split
+        · rename_i h' r e; exact selectH_keeps e
         · exact keeps_refl h
     exact keeps_trans k1 (ih (hstep .always h o))
+
+/-- **Which results are existing objects**: the result of a statement is an object that existed before only for
+`select` and for stack/concatenate with `keep_dim` (the documented hand-backs: empty criteria, a dimension of
+size 1); every other statement — `transform` in particular, whatever its `func` hands back — yields a new object,
+so no later in-place step on a result can reach an operand through it. -/
+theorem c14_result_fresh {P : Type} (h : Heap) (o : HOp P) (r : Nat) (e : (hstepR .always h o).2 = some r)
+    (hlt : r < h.length) :
+    (∃ a crit drop, o = .select a crit drop) ∨ (∃ m kw a d b, o = .combine m kw a d b true) := by
+  cases o with
+  | op o =>
+    simp only [hstepR] at e
+    split at e
+    · injection e with e; subst e; exact absurd hlt (Nat.lt_irrefl _)
+    · cases e
+  | transform a f ps dim axis =>
+    simp only [hstepR] at e
+    split at e
+    · rename_i h' r' he
+      injection e with e; subst e
+      exact absurd (c14_transform_intact h a f ps dim axis h' r' he).2.1 (by omega)
+    · cases e
+  | combine m kw a d b keep =>
+    cases keep with
+    | true => exact Or.inr ⟨m, kw, a, d, b, rfl⟩
+    | false =>
+      simp only [hstepR] at e
+      split at e
+      · rename_i h' r' he
+        injection e with e; subst e
+        unfold combineH at he
+        split at he
+        · cases he
+        · split at he
+          · simp only [Bool.false_eq_true, if_false] at he
+            split at he
+            · injection he with he; injection he with e1 e2; subst e2; exact absurd hlt (Nat.lt_irrefl _)
+            · cases he
+          · split at he
+            · injection he with he; injection he with e1 e2; subst e2; exact absurd hlt (Nat.lt_irrefl _)
+            · cases he
+      · cases e
+  | select a crit drop => exact Or.inl ⟨a, crit, drop, rfl⟩
+
+/-- non-vacuity: `select` without criteria and `stack` with keep_dim on a size-1 dimension hand back object 0;
+`stack` without keep_dim makes a new object and leaves object 0 as it was -/
+example :
+    let h : Heap := [Fluent.fromSource [("d0", [.int 7]), ("d1", [.int 0, .int 10])] 0]
+    ((hstepR (P := Nat) .always h (.select 0 none false)).2, (hstepR (P := Nat) .always h (.combine "stack" [] 0 "d0" 0 true)).2,
+     (hstepR (P := Nat) .always h (.combine "stack" [] 0 "d0" 0 false)).2,
+     ((hstepR (P := Nat) .always h (.combine "stack" [] 0 "d0" 0 false)).1.map (·.dimNames)))
+      = (some 0, some 0, some 1, [["d0", "d1"], ["d1"]]) := by decide
 
 example : ((hrun .always [Fluent.fromSource [("d0", [.int 0])] 0, Fluent.fromSource [("d0", [.int 5])] 1]
     [HOp.op (.join 0 1 (.name "w") true), HOp.transform 0 (.lookup (fun (_ : Nat) => 2)) [0] (.name "t") 0]).map (·.dimNames))
@@ -679,6 +779,66 @@ example :
      | .ok (h', r) => (h'.length, r, (h'.cell r).dimNames)
      | .error _ => (0, 0, [])) = (6, 5, ["t", "d0"]) := by decide
 
+open Aux in
+/-- the heap version of stack / concatenate computes what `Fluent.combine` (the value model of C13) computes -/
+theorem c14_combine_refines (h : Heap) (m : String) (kw : List (String × Static)) (a : Nat) (d : String) (b : Nat) (keep : Bool)
+    (h' : Heap) (r : Nat) (e : combineH h m kw a d b keep = .ok (h', r)) :
+    Fluent.combine m kw d b keep (h.cell a) = .ok (h'.cell r) := by
+  unfold combineH at e
+  unfold Fluent.combine
+  split at e
+  · cases e
+  · rename_i x hx
+    simp only [hx]
+    split at e
+    · rename_i h1
+      simp only [h1, if_true]
+      split at e
+      · rename_i hk
+        injection e with e; injection e with e1 e2; subst e1; subst e2; simp [hk]
+      · rename_i hk
+        unfold squeezeAt at e
+        rw [cell_append_length h (h.cell a) []] at e
+        cases hq : squeeze (h.cell a) d false with
+        | error err => simp [hq] at e
+        | ok y =>
+          simp only [hq] at e
+          injection e with e; injection e with e1 e2; subst e1; subst e2
+          rw [cell_set_eq _ y (by simp)]
+          simp [hk]
+    · rename_i h1
+      simp only [h1, if_false]
+      split at e
+      · rename_i y hy
+        injection e with e; injection e with e1 e2; subst e1; subst e2
+        rw [hy, cell_append_length h y []]
+      · cases e
+
+/-! ### C14 — what the name does not cover -/
+
+/-- **The number of outputs is not part of the name**: `a.map(f)` and `a.map(f, yields=("y", [0, 1]))` — the same
+callable, statics and inputs with 1 and with 2 outputs — get the same name, whatever `H` and `R` are. -/
+theorem c14_outputs_full_fails {σ : Type} [Inhabited σ] (H : Str → Str) (R : σ → Str) :
+    ¬ (∀ c1 c2 : Comp σ, nodeName H R c1 = nodeName H R c2 → c1.outputs = c2.outputs) := by
+  intro hall
+  have := hall { func := { name := "f".toList, ident := 0 }, statics := default, inputs := [], outputs := 1 }
+               { func := { name := "f".toList, ident := 0 }, statics := default, inputs := [], outputs := 2 } rfl
+  simp at this
+
+/-- **A lossy rendering of the statics loses the computation**: whenever two different static parts are rendered
+alike (`repr` of a long array prints `...`), two nodes that differ only in them get the same name — this is exactly
+the situation the hypothesis `hR` of `c14_injective_partial` excludes. -/
+theorem c14_lossy_repr_full_fails {σ : Type} (H : Str → Str) (R : σ → Str) (x y : σ) (hxy : x ≠ y) (hR : R x = R y) :
+    ∃ c1 c2 : Comp σ, c1.func = c2.func ∧ c1.inputs = c2.inputs ∧ c1.statics ≠ c2.statics ∧
+      nodeName H R c1 = nodeName H R c2 :=
+  ⟨{ func := { name := "f".toList, ident := 0 }, statics := x, inputs := [] },
+   { func := { name := "f".toList, ident := 0 }, statics := y, inputs := [] },
+   rfl, rfl, hxy, by simp [nodeName, render, hR]⟩
+
+example : ∃ c1 c2 : Comp Bool, c1.func = c2.func ∧ c1.inputs = c2.inputs ∧ c1.statics ≠ c2.statics ∧
+    nodeName id (fun _ => "array([0., ..., 0.])".toList) c1 = nodeName id (fun _ => "array([0., ..., 0.])".toList) c2 :=
+  c14_lossy_repr_full_fails id _ true false (by decide) rfl
+
 /-! ### C14 — corollaries: operand order, the set of taken source names -/
 
 /-- **The order of the inputs is part of the name**: the same callable with the same statics over
@@ -704,5 +864,344 @@ default argument, a module-level set), building the same sources again would lab
 theorem c14_source_labels_fresh_set_needed :
     ∃ items : List (Str × List Nat), sourceLabels items (sourceLabels items []) ≠ sourceLabels items [] :=
   ⟨[("load".toList, [0])], by decide⟩
+
+/-! ### C14 — unions (`Cascade.from_actions`, `+`, `+=`) -/
+
+namespace Aux
+
+variable {σ : Type} [DecidableEq σ]
+
+theorem mem_insertNew (acc : List (Comp σ)) (c x : Comp σ) : x ∈ insertNew acc c ↔ x ∈ acc ∨ x = c := by
+  unfold insertNew
+  split
+  · rename_i h
+    constructor
+    · intro hx; exact Or.inl hx
+    · intro hx; rcases hx with hx | hx
+      · exact hx
+      · subst hx; exact h
+  · simp
+
+theorem mem_foldl_insertNew (l : List (Comp σ)) : ∀ (acc : List (Comp σ)) (x : Comp σ),
+    x ∈ l.foldl insertNew acc ↔ x ∈ acc ∨ x ∈ l := by
+  induction l with
+  | nil => intro acc x; simp
+  | cons c cs ih =>
+    intro acc x
+    simp only [List.foldl_cons, ih, mem_insertNew, List.mem_cons]
+    constructor
+    · rintro ((h | h) | h)
+      · exact Or.inl h
+      · exact Or.inr (Or.inl h)
+      · exact Or.inr (Or.inr h)
+    · rintro (h | h | h)
+      · exact Or.inl (Or.inl h)
+      · exact Or.inl (Or.inr h)
+      · exact Or.inr h
+
+theorem nodup_insertNew (acc : List (Comp σ)) (c : Comp σ) (h : acc.Nodup) : (insertNew acc c).Nodup := by
+  unfold insertNew
+  split
+  · exact h
+  · rename_i hc
+    rw [List.nodup_append]
+    refine ⟨h, by simp, ?_⟩
+    intro a ha b hb
+    simp at hb
+    subst hb
+    intro hab; subst hab; exact hc ha
+
+theorem nodup_foldl_insertNew (l : List (Comp σ)) : ∀ acc : List (Comp σ), acc.Nodup → (l.foldl insertNew acc).Nodup := by
+  induction l with
+  | nil => intro acc h; exact h
+  | cons c cs ih => intro acc h; exact ih _ (nodup_insertNew acc c h)
+
+theorem foldl_insertNew_absorb (l : List (Comp σ)) : ∀ acc : List (Comp σ), (∀ c ∈ l, c ∈ acc) → l.foldl insertNew acc = acc := by
+  induction l with
+  | nil => intro acc _; rfl
+  | cons c cs ih =>
+    intro acc h
+    have hc : c ∈ acc := h c (by simp)
+    simp only [List.foldl_cons, insertNew, hc, if_true]
+    exact ih acc (fun x hx => h x (by simp [hx]))
+
+theorem nodup_map_on {α β : Type} (f : α → β) : ∀ (l : List α), l.Nodup →
+    (∀ a ∈ l, ∀ b ∈ l, f a = f b → a = b) → (l.map f).Nodup := by
+  intro l
+  induction l with
+  | nil => intro _ _; exact List.nodup_nil
+  | cons x xs ih =>
+    intro hnd hinj
+    rw [List.nodup_cons] at hnd
+    rw [List.map_cons, List.nodup_cons]
+    refine ⟨?_, ih hnd.2 (fun a ha b hb => hinj a (by simp [ha]) b (by simp [hb]))⟩
+    intro hmem
+    rw [List.mem_map] at hmem
+    obtain ⟨y, hy, hfy⟩ := hmem
+    have := hinj y (by simp [hy]) x (by simp) hfy
+    subst this
+    exact hnd.1 hy
+
+end Aux
+
+open Aux
+
+variable {σ : Type} [DecidableEq σ]
+
+/-- **Unions de-duplicate**: the union keeps every computation exactly once — every node of the operands is in the
+union, nothing else is, no computation twice; and uniting a graph with a second build of itself (node for node the
+same computations) changes nothing. -/
+theorem c14_union_dedup (g : List (Comp σ)) :
+    (∀ c, c ∈ dedupNodes g ↔ c ∈ g) ∧ (dedupNodes g).Nodup ∧ dedupNodes (g ++ g) = dedupNodes g := by
+  refine ⟨fun c => by simp [dedupNodes, mem_foldl_insertNew], nodup_foldl_insertNew g [] List.nodup_nil, ?_⟩
+  simp only [dedupNodes, List.foldl_append]
+  exact foldl_insertNew_absorb g _ (fun c hc => by simp [mem_foldl_insertNew, hc])
+
+/-- **…and lowering by name is unambiguous — wherever names identify computations**: if on the nodes of the
+operands equal names imply equal computations (`c14_injective_partial` gives callable, statics and inputs; the
+outputs are the part the name does not cover, `c14_outputs_full_fails`), then the names in the de-duplicated
+union are pairwise different, and looking a node of an operand up by its name finds that very computation. -/
+theorem c14_union_unambiguous_partial (H : Str → Str) (R : σ → Str) (g : List (Comp σ))
+    (hinj : ∀ c1 ∈ g, ∀ c2 ∈ g, nodeName H R c1 = nodeName H R c2 → c1 = c2) :
+    ((dedupNodes g).map (nodeName H R)).Nodup ∧
+    ∀ c ∈ g, ∀ c' ∈ dedupNodes g, nodeName H R c' = nodeName H R c → c' = c := by
+  have hmem := (c14_union_dedup g).1
+  refine ⟨?_, fun c hc c' hc' hn => hinj c' ((hmem c').1 hc') c hc hn⟩
+  have hnd := (c14_union_dedup g).2.1
+  exact nodup_map_on _ _ hnd (fun a ha b hb hab => hinj a ((hmem a).1 ha) b ((hmem b).1 hb) hab)
+
+example : ((dedupNodes [({ func := { name := "f".toList, ident := 0 }, statics := (), inputs := ["a".toList] } : Comp Unit),
+                        { func := { name := "f".toList, ident := 0 }, statics := (), inputs := ["a".toList] },
+                        { func := { name := "f".toList, ident := 0 }, statics := (), inputs := ["b".toList] }]).map
+            (nodeName id (fun _ => []))).Nodup :=
+  (c14_union_unambiguous_partial id (fun _ => []) _ (by decide)).1
+
+/-- **…and only there**: with the nodes the name does not tell apart (here: the same computation with 1 and with 2
+outputs) the de-duplicated union holds two nodes under one name — `serialise` and `graph2job` cannot key it. -/
+theorem c14_union_full_fails :
+    ∃ g : List (Comp Unit), ¬ ((dedupNodes g).map (nodeName id (fun _ => []))).Nodup :=
+  ⟨[{ func := { name := "f".toList, ident := 0 }, statics := (), inputs := [], outputs := 1 },
+    { func := { name := "f".toList, ident := 0 }, statics := (), inputs := [], outputs := 2 }], by decide⟩
+
+/-! ### C14 — names identify whole computations (induction over the depth of the graph) -/
+
+/-- characters that occur neither in callable names / source labels / output names nor in hex digests -/
+def Clean (s : Str) : Prop :=
+  ∀ c ∈ s, c ≠ ':' ∧ c ≠ '.' ∧ c ≠ '[' ∧ c ≠ '\'' ∧ c ≠ '\\' ∧ c ≠ '\n' ∧ c ≠ '\t' ∧ c ≠ '\r'
+
+mutual
+/-- well-formed: callable names, labels and output names are clean, and every callable is one of `ok` -/
+def Term.WF {σ : Type} (ok : Callable → Prop) : Term σ → Prop
+  | .node label f _ _ args => Clean (label.getD f.name) ∧ Clean f.name ∧ ok f ∧ Args.WF ok args
+def Args.WF {σ : Type} (ok : Callable → Prop) : Args σ → Prop
+  | .nil => True
+  | .cons t out rest => Term.WF ok t ∧ (∀ o, out = some o → Clean o) ∧ Args.WF ok rest
+end
+
+namespace Aux
+
+theorem clean_plain {s : Str} (h : Clean s) : Plain s := fun c hc =>
+  ⟨(h c hc).2.2.2.1, (h c hc).2.2.2.2.1, (h c hc).2.2.2.2.2.1, (h c hc).2.2.2.2.2.2.1, (h c hc).2.2.2.2.2.2.2⟩
+
+theorem clean_not_mem {s : Str} (h : Clean s) : ':' ∉ s ∧ '.' ∉ s ∧ '[' ∉ s :=
+  ⟨fun hm => (h _ hm).1 rfl, fun hm => (h _ hm).2.1 rfl, fun hm => (h _ hm).2.2.1 rfl⟩
+
+/-- **`"<parent>.<output>"` is never a node name, and it names its parent and output uniquely**: node names have
+the form `<label>:<digest>` with no `:` in the label and neither `:` nor `.` in the digest -/
+theorem inputName_inj (l1 l2 d1 d2 : Str) (o1 o2 : Option Str) (hl1 : Clean l1) (hl2 : Clean l2)
+    (hd1 : Clean d1) (hd2 : Clean d2)
+    (h : inputName (l1 ++ ':' :: d1) o1 = inputName (l2 ++ ':' :: d2) o2) :
+    l1 ++ ':' :: d1 = l2 ++ ':' :: d2 ∧ o1 = o2 := by
+  have c1 := clean_not_mem hl1
+  have c2 := clean_not_mem hl2
+  have e1 := clean_not_mem hd1
+  have e2 := clean_not_mem hd2
+  cases o1 with
+  | none =>
+    cases o2 with
+    | none => exact ⟨h, rfl⟩
+    | some o =>
+      simp only [inputName, List.append_assoc, List.cons_append] at h
+      obtain ⟨_, hd⟩ := split_at_char ':' _ _ _ _ c1.1 c2.1 h
+      exact absurd (by rw [hd]; simp) e1.2.1
+  | some o =>
+    cases o2 with
+    | none =>
+      simp only [inputName, List.append_assoc, List.cons_append] at h
+      obtain ⟨_, hd⟩ := split_at_char ':' _ _ _ _ c1.1 c2.1 h
+      exact absurd (by rw [← hd]; simp) e2.2.1
+    | some o' =>
+      simp only [inputName, List.append_assoc, List.cons_append] at h
+      obtain ⟨hl, hd⟩ := split_at_char ':' _ _ _ _ c1.1 c2.1 h
+      obtain ⟨hdd, ho⟩ := split_at_char '.' _ _ _ _ e1.2.1 e2.2.1 hd
+      exact ⟨by rw [hl, hdd], by rw [ho]⟩
+
+theorem plain_inputName (l d : Str) (o : Option Str) (hl : Clean l) (hd : Clean d) (ho : ∀ x, o = some x → Clean x) :
+    Plain (inputName (l ++ ':' :: d) o) := by
+  intro c hc
+  have key : c ∈ l ∨ c = ':' ∨ c ∈ d ∨ c = '.' ∨ (∃ x, o = some x ∧ c ∈ x) := by
+    cases o with
+    | none => simp [inputName] at hc; rcases hc with h | h | h <;> simp [h]
+    | some x => simp [inputName] at hc; rcases hc with h | h | h | h | h <;> simp [h]
+  rcases key with h | h | h | h | ⟨x, hx, h⟩
+  · exact clean_plain hl c h
+  · subst h; decide
+  · exact clean_plain hd c h
+  · subst h; decide
+  · exact clean_plain (ho x hx) c h
+
+theorem args_names_plain {σ : Type} (H : Str → Str) (R : σ → Str) (ok : Callable → Prop) (hHc : ∀ s, Clean (H s)) :
+    ∀ (a : Args σ), a.WF ok → ∀ n ∈ a.names H R, Plain n
+  | .nil, _, n, hn => by simp [Args.names] at hn
+  | .cons (.node label f s o args) out rest, hw, n, hn => by
+    simp only [Args.WF, Term.WF] at hw
+    simp only [Args.names, Term.name, List.mem_cons] at hn
+    rcases hn with hn | hn
+    · subst hn
+      exact plain_inputName _ _ out hw.1.1 (hHc _) hw.2.1
+    · exact args_names_plain H R ok hHc rest hw.2.2 n hn
+
+mutual
+theorem term_inj {σ : Type} (H : Str → Str) (R : σ → Str) (ok : Callable → Prop)
+    (hH : Function.Injective H) (hHc : ∀ s, Clean (H s))
+    (hR : UniquelyDecodable R) (hRb : ∀ s, ∃ t, R s = '[' :: t)
+    (hcall : ∀ f g, ok f → ok g → f.name = g.name → f = g) :
+    ∀ (t1 t2 : Term σ), t1.WF ok → t2.WF ok → t1.name H R = t2.name H R → t1.comp = t2.comp
+  | .node l1 f1 s1 o1 a1, .node l2 f2 s2 o2 a2, w1, w2, h => by
+    simp only [Term.WF] at w1 w2
+    simp only [Term.name] at h
+    obtain ⟨hl, hd⟩ := split_at_char ':' _ _ _ _ (clean_not_mem w1.1).1 (clean_not_mem w2.1).1 h
+    have hr := hH hd
+    obtain ⟨t1, ht1⟩ := hRb s1
+    obtain ⟨t2, ht2⟩ := hRb s2
+    have hr' := hr
+    rw [ht1, ht2] at hr'
+    simp only [List.append_assoc, List.cons_append] at hr'
+    obtain ⟨hfn, _⟩ := split_at_char '[' _ _ _ _ (clean_not_mem w1.2.1).2.2 (clean_not_mem w2.2.1).2.2 hr'
+    have hf : f1 = f2 := hcall f1 f2 w1.2.2.1 w2.2.2.1 hfn
+    subst hf
+    simp only [List.append_assoc] at hr
+    have hr2 := List.append_cancel_left hr
+    obtain ⟨hs, hn⟩ := hR _ _ _ _ hr2
+    subst hs
+    have hnames := reprNames_inj _ _ (args_names_plain H R ok hHc a1 w1.2.2.2) (args_names_plain H R ok hHc a2 w2.2.2.2) hn
+    have ha := args_inj H R ok hH hHc hR hRb hcall a1 a2 w1.2.2.2 w2.2.2.2 hnames
+    simp only [Term.comp, hl, ha]
+theorem args_inj {σ : Type} (H : Str → Str) (R : σ → Str) (ok : Callable → Prop)
+    (hH : Function.Injective H) (hHc : ∀ s, Clean (H s))
+    (hR : UniquelyDecodable R) (hRb : ∀ s, ∃ t, R s = '[' :: t)
+    (hcall : ∀ f g, ok f → ok g → f.name = g.name → f = g) :
+    ∀ (a1 a2 : Args σ), a1.WF ok → a2.WF ok → a1.names H R = a2.names H R → a1.comp = a2.comp
+  | .nil, .nil, _, _, _ => rfl
+  | .nil, .cons _ _ _, _, _, h => by simp [Args.names] at h
+  | .cons _ _ _, .nil, _, _, h => by simp [Args.names] at h
+  | .cons (.node l1 f1 s1 p1 b1) o1 r1, .cons (.node l2 f2 s2 p2 b2) o2 r2, w1, w2, h => by
+    simp only [Args.names, List.cons.injEq] at h
+    have w1' := w1
+    have w2' := w2
+    simp only [Args.WF, Term.WF] at w1 w2
+    have hi := h.1
+    simp only [Term.name] at hi
+    obtain ⟨hname, ho⟩ := inputName_inj _ _ _ _ o1 o2 w1.1.1 w2.1.1 (hHc _) (hHc _) hi
+    have ht := term_inj H R ok hH hHc hR hRb hcall (.node l1 f1 s1 p1 b1) (.node l2 f2 s2 p2 b2)
+      (by simp only [Args.WF] at w1'; exact w1'.1) (by simp only [Args.WF] at w2'; exact w2'.1)
+      (by simp only [Term.name]; exact hname)
+    have hrest := args_inj H R ok hH hHc hR hRb hcall r1 r2 w1.2.2 w2.2.2 h.2
+    simp only [Args.comp, ht, ho, hrest]
+end
+
+/-- an injective "hash" whose digests are clean (for the non-vacuity examples): every character `c` becomes
+`a…a b` with `c.toNat` letters `a` -/
+def unaryH (s : Str) : Str := s.flatMap (fun c => List.replicate c.toNat 'a' ++ ['b'])
+
+theorem unaryH_clean (s : Str) : Clean (unaryH s) := by
+  intro c hc
+  simp only [unaryH, List.mem_flatMap, List.mem_append, List.mem_replicate, List.mem_singleton] at hc
+  obtain ⟨_, _, hc⟩ := hc
+  rcases hc with ⟨_, hc⟩ | hc <;> subst hc <;> decide
+
+theorem unaryH_injective : Function.Injective unaryH := by
+  intro s
+  induction s with
+  | nil =>
+    intro t h
+    cases t with
+    | nil => rfl
+    | cons d t => simp [unaryH] at h
+  | cons c s ih =>
+    intro t h
+    cases t with
+    | nil => simp [unaryH] at h
+    | cons d t =>
+      simp only [unaryH, List.flatMap_cons, List.append_assoc, List.cons_append, List.nil_append] at h
+      have nb : ∀ n : Nat, 'b' ∉ List.replicate n 'a' := by
+        intro n hm; exact absurd (List.eq_of_mem_replicate hm) (by decide)
+      obtain ⟨hrep, hrest⟩ := split_at_char 'b' _ _ _ _ (nb _) (nb _) h
+      have hlen : c.toNat = d.toNat := by
+        have := congrArg List.length hrep
+        simpa using this
+      have hcd : c = d := Char.ext (UInt32.toNat_inj.mp hlen)
+      subst hcd
+      rw [ih hrest]
+
+end Aux
+
+theorem Term.name_eq_nodeName {σ : Type} (H : Str → Str) (R : σ → Str) (f : Callable) (s : σ) (o : Nat) (args : Args σ) :
+    Term.name H R (.node none f s o args) = nodeName H R { func := f, statics := s, inputs := Args.names H R args, outputs := o } := by
+  simp [Term.name, nodeName, render]
+
+theorem Term.name_eq_nodeNameLabelled {σ : Type} (H : Str → Str) (R : σ → Str) (l : Str) (f : Callable) (s : σ) (o : Nat) (args : Args σ) :
+    Term.name H R (.node (some l) f s o args) = nodeNameLabelled H R l { func := f, statics := s, inputs := Args.names H R args, outputs := o } := by
+  simp [Term.name, nodeNameLabelled, render]
+
+open Aux in
+/-- **`"<parent>.<output>"` is never a node name and is read back uniquely**: every node name is `<label>:<digest>`
+with a label free of `:` and a digest free of `:` and `.` (hex); so the name an Output contributes to the hashed
+string cannot be confused with the name a Node contributes, and two of them are equal only for the same parent
+name and the same output. -/
+theorem c14_input_name_injective (l1 l2 d1 d2 : Str) (o1 o2 : Option Str) (hl1 : Clean l1) (hl2 : Clean l2)
+    (hd1 : Clean d1) (hd2 : Clean d2)
+    (h : inputName (l1 ++ ':' :: d1) o1 = inputName (l2 ++ ':' :: d2) o2) :
+    l1 ++ ':' :: d1 = l2 ++ ':' :: d2 ∧ o1 = o2 :=
+  inputName_inj l1 l2 d1 d2 o1 o2 hl1 hl2 hd1 hd2 h
+
+example : inputName ("f".toList ++ ':' :: "ab12".toList) (some "0".toList) ≠ "f".toList ++ ':' :: "ab12".toList := by
+  intro h
+  have := c14_input_name_injective "f".toList "f".toList "ab12".toList "ab12".toList (some "0".toList) none
+    (by simp [Clean]) (by simp [Clean]) (by simp [Clean]) (by simp [Clean]) h
+  cases this.2
+
+open Aux in
+/-- **Names identify whole computations — induction over the depth of the graph, source nodes included.** For an
+injective hash with clean (hex) digests, statics whose rendering can be read back and starts with `[` (Python's
+`repr` of the argument list), clean callable names / source labels / output names, and callables distinguished by
+their `__name__` (`ok`): two nodes with the same name denote the same computation all the way down — the same
+callables, statics, parameter-to-input wiring and outputs used, at every node of the two graphs. (`comp` forgets
+what the name cannot see: whether the name prefix was passed explicitly, and the number of outputs.) -/
+theorem c14_injective_deep_partial {σ : Type} (H : Str → Str) (R : σ → Str) (ok : Callable → Prop)
+    (hH : Function.Injective H) (hHc : ∀ s, Clean (H s))
+    (hR : UniquelyDecodable R) (hRb : ∀ s, ∃ t, R s = '[' :: t)
+    (hcall : ∀ f g, ok f → ok g → f.name = g.name → f = g)
+    (t1 t2 : Term σ) (w1 : t1.WF ok) (w2 : t2.WF ok) (h : t1.name H R = t2.name H R) :
+    t1.comp = t2.comp :=
+  term_inj H R ok hH hHc hR hRb hcall t1 t2 w1 w2 h
+
+/-- non-vacuity: with the injective clean "hash" `unaryH` the hypotheses hold, and the theorem separates
+`f(src)` from `f(src.0)` (the node itself vs. its output `0` as input) two levels above the source -/
+example :
+    let src : Term Unit := .node (some "src(0,)".toList) { name := "src".toList, ident := 0 } () 1 .nil
+    let t1 : Term Unit := .node none { name := "g".toList, ident := 0 } () 1
+      (.cons (.node none { name := "f".toList, ident := 0 } () 1 (.cons src none .nil)) none .nil)
+    let t2 : Term Unit := .node none { name := "g".toList, ident := 0 } () 1
+      (.cons (.node none { name := "f".toList, ident := 0 } () 1 (.cons src (some "0".toList) .nil)) none .nil)
+    t1.name Aux.unaryH (fun _ => "[]{}".toList) ≠ t2.name Aux.unaryH (fun _ => "[]{}".toList) := by
+  intro src t1 t2 h
+  have hR : UniquelyDecodable (fun (_ : Unit) => "[]{}".toList) := by
+    intro x y s t hst; exact ⟨rfl, List.append_cancel_left hst⟩
+  have := c14_injective_deep_partial Aux.unaryH (fun _ => "[]{}".toList) (fun f => f.ident = 0)
+    Aux.unaryH_injective Aux.unaryH_clean hR (fun _ => ⟨_, rfl⟩)
+    (fun f g hf hg hn => by cases f; cases g; simp_all)
+    t1 t2 (by simp [t1, src, Term.WF, Args.WF, Clean]) (by simp [t2, src, Term.WF, Args.WF, Clean]) h
+  simp [t1, t2, Term.comp, Args.comp] at this
 
 end EkwVerif.Names
